@@ -369,10 +369,14 @@ Definition query_get (w : wire) (k : str) : str := get_first k (w_query w).     
 
 Definition sig_lookup (t : list (str * sigval)) (raw : str) : sigval :=
   if is_nil raw then SigAbsent else match assoc_tab raw t with Some v => v | None => SigBad end.
+(* base64 of "" is the empty string, which has no colon *)
 Definition state_lookup (t : list (str * cb_state)) (raw : str) : cb_state :=
-  match assoc_tab raw t with Some v => v | None => if is_nil raw then StNoColon else StBad end.
+  if is_nil raw then StNoColon else match assoc_tab raw t with Some v => v | None => StBad end.
+(* url.Parse("") succeeds with an empty URL: String() = "", no nested parameters *)
+Definition empty_start : start_info :=
+  {| si_outer := Some []; si_raw_nested := []; si_nested := Some []; si_sig := SigAbsent; si_ts := [] |}.
 Definition start_lookup (t : list (str * start_info)) (raw : str) : start_info :=
-  match assoc_tab raw t with Some i => i | None => no_start end.
+  if is_nil raw then empty_start else match assoc_tab raw t with Some i => i | None => no_start end.
 Definition qok_lookup (t : list (str * bool)) (raw : str) : bool :=
   match assoc_tab raw t with Some b => b | None => true end.
 
